@@ -231,7 +231,12 @@ func runScenario(sc *Scenario, tier string, spec *Spec, part *Part) {
 	}
 	counters := map[string]int{}
 	ex := &vsched.Explorer{P: sc.P, D: sc.D, CacheOn: !sc.NoCache, Opts: sc.Opts, Deadline: deadline}
+	slowShown := 0
 	ex.OnResult = func(r *vsched.Result) string {
+		if r.Steps > 3000 && slowShown < 2 && os.Getenv("VERIF_TIMING") != "" {
+			slowShown++
+			fmt.Fprintf(os.Stderr, "SLOW steps=%d scenario=%q nchoices=%d\n", r.Steps, sc.Name, len(r.Choices))
+		}
 		if sc.Counters != nil {
 			for k, v := range sc.Counters() {
 				counters[k] += v
